@@ -76,33 +76,47 @@ EXC = {'E1': E1, 'E2': E2, 'E3': E3}
 # ---------------------------------------------------------------------------
 # Probe classes and functions (shared by all threads; the settings are not).
 # ---------------------------------------------------------------------------
+RAISE = 'c17-raise'            # constructor argument: the constructor raises E1
+SELF_RAISE = 'c17-self-raise'  # a function destination creates `cls(RAISE)` itself
+
+
+def _ctor_arg(owner, v):
+  if isinstance(v, str) and v in (RAISE, SELF_RAISE):
+    raise E1(f'raised by {owner}')
+  return v
+
+
 class K1:
   def __init__(self, v=0):
-    self.v = v
+    self.v = _ctor_arg('K1.__init__', v)
 
 
 class K2:
   def __init__(self, v=0):
-    self.v = v
+    self.v = _ctor_arg('K2.__init__', v)
 
 
 class K3:
   def __init__(self, v=0):
-    self.v = v
+    self.v = _ctor_arg('K3.__init__', v)
 
 
 def kfn(cls, v=0):
+  """Function destination of a detour ("cls is the original class before detour")."""
+  if isinstance(v, str) and v == SELF_RAISE:
+    return cls(RAISE)          # the constructor of the original class raises
+  _ctor_arg('kfn', v)
   return ('kfn', cls.__name__)
 
 
 class U:
   def __init__(self, a=1):
-    self.a = a
+    self.a = _ctor_arg('U.__init__', a)
 
 
 class V:
   def __init__(self, a=1):
-    self.a = a
+    self.a = _ctor_arg('V.__init__', a)
 
 
 UW = pg.wrap(U)
@@ -143,9 +157,32 @@ def c17_foo(x, y):
   return x + y
 
 
+@pg.symbolize
+def c17_raiser(x):
+  raise E1('raised by the body of a functor')
+
+
+class OnBoundRaiser(pg.Object):
+  """`_on_bound` (user code run by construction and by every rebind) raises."""
+  x: int = 0
+
+  def _on_bound(self):
+    super()._on_bound()
+    if self.x == 13:
+      raise E1('raised by _on_bound')
+
+
+class OnChangeRaiser(pg.Object):
+  x: int = 0
+
+  def _on_change(self, field_updates):
+    raise E1('raised by _on_change')
+
+
 @pg.typing.enable_preset_args()
 def pf(x, y=pg.typing.PresetArgValue(default=1),
        z=pg.typing.PresetArgValue(default=5)):
+  _ctor_arg('pf', x)
   return (x, y, z)
 
 
@@ -160,6 +197,12 @@ class FmtProbe(pg.Formattable):
   def format(self, **kwargs):
     return repr(sorted((k, v) for k, v in kwargs.items()
                        if k in FMT_KEYS))
+
+
+class FmtRaiser(pg.Formattable):
+
+  def format(self, **kwargs):
+    raise E1('raised by format')
 
 
 FMT_KEYS = ('compact', 'verbose', 'python_format', 'hide_default_values', 'c17_tag')
@@ -178,7 +221,15 @@ class ProbeView(pg.views.View):
     pass
 
   def render(self, value, *, name=None, root_path=None, **kwargs):
+    _ctor_arg('ProbeView.render', value)
     return pg.Html(repr(_canon_kw(kwargs)))
+
+
+class HtmlRaiser(pg.views.HtmlTreeView.Extension):
+  """An object whose part of the HTML tree view raises."""
+
+  def _html_tree_view_content(self, **kwargs):
+    raise E1('raised by _html_tree_view_content')
 
 
 VIEW_VALUES = {'enable_summary_tooltip': [True, False],
@@ -191,11 +242,19 @@ VIEW_VALUES = {'enable_summary_tooltip': [True, False],
 VIEW_DICT_OPTIONS = ('extra_flags', 'child_config')
 
 
+def _de_raise_if_asked(hv):
+  cands = getattr(hv, 'candidates', None)
+  if cands and isinstance(cands[0], str) and cands[0] == RAISE:
+    raise E1('raised by the dynamic evaluation function')
+
+
 def _de_f1(hv):
+  _de_raise_if_asked(hv)
   return ('c17-de', 'f1')
 
 
 def _de_f2(hv):
+  _de_raise_if_asked(hv)
   return ('c17-de', 'f2')
 
 
@@ -236,6 +295,12 @@ class Env:
     self.co = CO(x=1)
     self.fmt_d = pg.Dict(a=1, b=[1, 2], c=pg.Dict(x=None))
     self.html_d = pg.Dict(a=dict(b=1))
+    # objects the events (EVENTS) work on: user code they dispatch to raises
+    self.ev_d = pg.Dict(a=0, b=1, onchange_callback=_raising_callback)
+    self.ev_l = pg.List([1, 2, 3], onchange_callback=_raising_callback)
+    self.ev_bound = OnBoundRaiser(x=0)
+    self.ev_change = OnChangeRaiser(x=0)
+    self.ev_html = HtmlRaiser()
     self.n = 0
     self.timeits = []                 # TimeIt objects this thread is inside of
     self.left_timeits = []            # TimeIt objects of blocks this thread has left
@@ -246,6 +311,10 @@ class Env:
   def tick(self):
     self.n += 1
     return self.n
+
+
+def _raising_callback(updates):
+  raise E1('raised by onchange_callback')
 
 
 def default_state():
@@ -794,6 +863,133 @@ for _m in ('contextual_override', 'ContextualObject.override', 'str_format',
            'coding.context', 'coding.permission', 'detour', 'apply_wrappers',
            'preset_args', 'load_types_for_deserialization'):
   _use(_m, 'read', (lambda m: lambda y, env: canon_yield(m, y))(_m))
+
+
+# ---------------------------------------------------------------------------
+# Events inside a block: user code the scoped machinery dispatches to raises,
+# and the program handles the exception inside the block.
+# ---------------------------------------------------------------------------
+class Event:
+  """Something a program does inside a block that makes user code the library
+  dispatches to (a detour destination, a callback, a view / format method, a
+  functor body, evaluated code, ...) raise; every exception is caught right
+  there, i.e. *inside* all the enclosing blocks.  No scoped setting is
+  documented to change by that: the model state is the same before and after.
+
+  apply(env) returns the list of outcomes ('ok', value) | ('raise', class name)
+  of the calls it made (how many of them raise depends on the settings in
+  effect and is not judged)."""
+
+  def __init__(self, name, mgr, apply, scope='thread', focus=None):
+    self.name, self.mgr, self.apply, self.scope = name, mgr, apply, scope
+    # managers whose costly observers are evaluated around the event
+    self.focus = tuple(focus) if focus else (mgr,)
+
+
+EVENTS = {}
+
+
+def _event(name, mgr, apply, scope='thread', focus=None):
+  EVENTS[name] = Event(name, mgr, apply, scope, focus)
+
+
+def _calls(*fs):
+  return lambda env: [_outcome(lambda f=f: f(env)) for f in fs]
+
+
+def _new_raises(names):
+  def apply(env):
+    out = []
+    for n in names:
+      out.append(_outcome(lambda n=n: DETOUR_POOL[n](RAISE)))
+      out.append(_outcome(lambda n=n: DETOUR_POOL[n](SELF_RAISE)))
+    return out
+  return apply
+
+
+# The destination of a detour (class `__init__`, function, function creating
+# the original class) raises; undetoured classes raise by themselves.
+_event('destination-raises', 'detour', _new_raises(('K1', 'K2', 'K3')))
+_event('wrapped-init-raises', 'apply_wrappers', _new_raises(('U', 'V')),
+       scope='process')
+
+
+def _raiser(*args, **kwargs):
+  raise E1('raised by a propagated function')
+
+
+# The function wrapped by `pg.with_contextual_override` raises (called in the
+# thread that wrapped it); reading an undefined contextual value raises.
+_event('propagated-function-raises', 'contextual_override', _calls(
+    lambda env: pg.with_contextual_override(_raiser)(),
+    lambda env: pg.contextual_value('c17-undefined'),
+    lambda env: env.co.c17_undefined))
+# A view / an extension method raises while `pg.view(..., **kwargs)` /
+# `pg.to_html` have their options in effect.
+_event('view-method-raises', 'view_options', _calls(
+    lambda env: pg.view(RAISE, view_id=ProbeView.VIEW_ID,
+                        enable_key_tooltip=False, extra_flags={'c17': 1}),
+    lambda env: pg.view(RAISE, view_id=ProbeView.VIEW_ID),
+    lambda env: pg.to_html_str(env.ev_html, collapse_level=0),
+    lambda env: pg.to_html_str(pg.Dict(a=env.ev_html))))
+
+
+# A change notification callback / `_on_change` / `_on_bound` raises, from
+# every kind of mutation entry point.
+def _tick_rebind(env):
+  env.ev_d.rebind(b=env.tick())
+
+
+_event('change-callback-raises', 'notify_on_change', _calls(
+    _tick_rebind,
+    lambda env: env.ev_d.pop('b'),
+    lambda env: env.ev_d.update({'b': env.tick()}),
+    lambda env: env.ev_l.append(env.tick()),
+    lambda env: env.ev_l.pop(),
+    lambda env: env.ev_change.rebind(x=env.tick())))
+_event('on-bound-raises', None, _calls(
+    lambda env: OnBoundRaiser(x=13),
+    lambda env: OnBoundRaiser.partial(x=13),
+    lambda env: env.ev_bound.rebind(x=13),
+    lambda env: env.ev_bound.rebind(x=0),
+    lambda env: pg.Dict(x='not-an-int', value_spec=SPEC),
+    lambda env: PA(x=1)),
+       focus=('enable_type_check', 'allow_partial', 'as_sealed',
+              'allow_writable_accessors', 'notify_on_change'))
+_event('format-raises', 'str_format', _calls(lambda env: str(FmtRaiser())))
+_event('repr-format-raises', 'repr_format', _calls(lambda env: repr(FmtRaiser())))
+
+
+def _functor_raises(env):
+  f = c17_raiser(1)       # raises here under auto_call_functors(True)
+  return f()
+
+
+_event('functor-body-raises', 'auto_call_functors', _calls(_functor_raises))
+_CODE_GLOBALS = {'c17raise': _raiser}
+_event('evaluated-code-raises', 'coding.context', _calls(
+    lambda env: pg.coding.evaluate('c17raise()', global_vars=dict(_CODE_GLOBALS)),
+    lambda env: pg.coding.evaluate('1 // 0'),
+    lambda env: pg.coding.evaluate('c17-not-python')))
+_event('permitted-code-raises', 'coding.permission', _calls(
+    lambda env: pg.coding.evaluate('c17raise()', global_vars=dict(_CODE_GLOBALS),
+                                   permission=P.ALL),
+    lambda env: pg.coding.run('c17raise()', global_vars=dict(_CODE_GLOBALS),
+                              sandbox=False)))
+_event('evaluate-fn-raises', 'dynamic_evaluate', _calls(
+    lambda env: pg.oneof([RAISE, 2]),
+    lambda env: pg.floatv(2.0, 1.0)))           # invalid hyper value: the ctor raises
+_event('preset-call-raises', 'preset_args', _calls(lambda env: pf(RAISE)))
+_event('deserialized-init-raises', 'load_types_for_deserialization', _calls(
+    lambda env: pg.from_json({'_type': 'c17nomod.LT1', 'x': 'not-an-int'},
+                             auto_import=False)), scope='process')
+_event('timed-block-raises', 'timeit', _calls(
+    lambda env: _timed_raise()))
+
+
+def _timed_raise():
+  with pg.timeit('c17-event'):
+    raise E1('raised in a timed block')
 
 
 # ---------------------------------------------------------------------------
